@@ -3,6 +3,7 @@ package main
 import (
 	"bytes"
 	"fmt"
+	"go/types"
 	"strings"
 )
 
@@ -242,6 +243,12 @@ func ruleDupSortUnique(c *Check, rule string) {
 	pos := c.P.Pos(fn.Pos())
 	cells := map[string]int{}
 	bad := 0
+	// the previous shadow key: the captured byte slice
+	prev := freeOfType(fn, func(t types.Type) bool { return isByteSlice(t) })
+	if prev == "" {
+		c.Undecided(rule, name+"/previous-key", "the callback does not capture exactly one byte slice (the previous shadow key)", pos)
+		return
+	}
 	for i := range paths {
 		p := &paths[i]
 		enc := callsOf(p, "syncer.dupSortHackEncodeOne")
@@ -258,10 +265,10 @@ func ruleDupSortUnique(c *Check, rule string) {
 			}
 			continue
 		}
-		r := p.State.RelOf("bytes", "*free:prevKey", enc[0].Res+"#0.Key")
+		r := p.State.RelOf("bytes", "*free:"+prev, enc[0].Res+"#0.Key")
 		prevSet := false
 		for _, e := range p.Events {
-			if e.Kind == "store" && e.Addr == "free:prevKey" && e.Val == enc[0].Res+"#0.Key" {
+			if e.Kind == "store" && e.Addr == "free:"+prev && e.Val == enc[0].Res+"#0.Key" {
 				prevSet = true
 			}
 		}
